@@ -1023,6 +1023,124 @@ func parseLayers(j judge, tier string) []Layer {
 				},
 			})
 		}
+		// C7: mantissas that are (small number)·5^k with a positive binary exponent near k: the value is
+		// (small number)·10^k·2^e, a short decimal although mantissa and power of two are long
+		{
+			ks := []uint{1, 5, 13, 27, 28, 40, 55, 56, 64, 82, 83, 100, 128, 200, 300}
+			if tier == "thorough" {
+				ks = ks[:0]
+				for k := uint(1); k <= 400; k++ {
+					ks = append(ks, k)
+				}
+			}
+			heads := []int64{1, 3, 7, 12345}
+			layers = append(layers, Layer{
+				Name:   "C7-powers-of-five-cancelled-by-exponent",
+				Units:  len(ks) * len(heads),
+				Bounds: fmt.Sprintf("literals (h·5^k in hexadecimal / octal / binary / decimal digits) p (k+e) for h in %v, k in %d values up to %d, e in -6..40: the value is h·10^k·2^e; precision {1,7,19,34,60}; modes Even/ToZero/AwayFromZero; ±: exact when representable, else within 1 ulp", heads, len(ks), ks[len(ks)-1]),
+				Run: func(c *Ctx, u int) {
+					h, k := heads[u/len(ks)], ks[u%len(ks)]
+					mant := new(big.Int).Exp(big.NewInt(5), big.NewInt(int64(k)), nil)
+					mant.Mul(mant, big.NewInt(h))
+					for e := -6; e <= 40; e++ {
+						if c.Done() {
+							return
+						}
+						ex := strconv.Itoa(int(k) + e)
+						for _, sg := range []string{"", "-"} {
+							for _, p := range []uint32{1, 7, 19, 34, 60} {
+								for _, md := range []uint8{ToNearestEven, ToZero, AwayFromZero} {
+									parseCase(c, j, sg+"0x"+mant.Text(16)+"p"+ex, 0, p, md, false)
+									if e%4 == 0 {
+										parseCase(c, j, sg+"0o"+mant.Text(8)+"p"+ex, 0, p, md, false)
+										parseCase(c, j, sg+mant.Text(10)+"p"+ex, 0, p, md, false)
+										parseCase(c, j, sg+mant.Text(2)+"p"+ex, 2, p, md, false)
+									}
+								}
+							}
+						}
+					}
+				},
+			})
+		}
+		// C8: every byte value 0..255 at every position of a few literals, and a corpus of words that other
+		// syntaxes treat specially: accepted or rejected exactly as math/big's Float does, through Parse,
+		// SetString and UnmarshalText (a rejecting UnmarshalText returns an error)
+		{
+			lits := []string{"1", "12", "1.5", "0x1p0", "2.5e3", "-7", "0b11", "1_0"}
+			words := []string{"null", "nil", "NULL", "Null", "NaN", "nan", "true", "false", "Infinity", "infinity", "inf", "Inf", "+inf", "-Inf", "+Inf", "INF", "∞", "", " ", "0x", "e1", "p1", "0e", "--1", "+-1", "1e1__0", "1e1_0", "1__0", "0_x1", "0x_1", "0X1P+1", "1E+1", "1.e1", ".e1", "0.", ".0", "0b", "0o", "0B1", "0O7"}
+			layers = append(layers, Layer{
+				Name:   "C8-every-byte-and-special-words",
+				Units:  len(lits) + 1,
+				Bounds: fmt.Sprintf("each of the 256 byte values inserted at, and substituted for, every position of %q; and %d words (null, nil, NaN, true, Infinity, inf spellings, empty, dangling prefixes / exponents / separators): Parse(s, 0), SetString and UnmarshalText accept exactly what big.Float's Parse / SetString / UnmarshalText accept, with the same value", lits, len(words)),
+				Run: func(c *Ctx, u int) {
+					one := func(s string) {
+						if c.Skip() {
+							return
+						}
+						c.NonTrivial()
+						f := new(big.Float).SetPrec(300)
+						_, _, ferr := f.Parse(s, 0)
+						z := buildPre(preInexact, 40, ToNearestEven)
+						var zerr error
+						pv, _ := protect(func() { _, _, zerr = z.Parse(s, 0) })
+						key := fmt.Sprintf("Parse(%q, 0)", s)
+						if pv != nil {
+							c.Fail(key, fmt.Sprintf("panic: %v", pv))
+							return
+						}
+						if (ferr == nil) != (zerr == nil) {
+							c.Fail(key, fmt.Sprintf("Decimal err=%v, big.Float err=%v", zerr, ferr))
+							return
+						}
+						f2 := new(big.Float).SetPrec(300)
+						ferr2 := f2.UnmarshalText([]byte(s))
+						z2 := buildPre(preLonger, 40, ToNearestEven)
+						before := Observe(z2)
+						var zerr2 error
+						pv, _ = protect(func() { zerr2 = z2.UnmarshalText([]byte(s)) })
+						if pv != nil {
+							c.Fail("UnmarshalText "+key, fmt.Sprintf("panic: %v", pv))
+						} else if (ferr2 == nil) != (zerr2 == nil) {
+							c.Fail("UnmarshalText "+key, fmt.Sprintf("Decimal err=%v (receiver %s -> %s), big.Float err=%v", zerr2, before, Observe(z2), ferr2))
+						} else if msg := Canonical(Observe(z2)); msg != "" {
+							c.Fail("UnmarshalText "+key, "receiver malformed: "+msg)
+						}
+						_, fok := new(big.Float).SetPrec(300).SetString(s)
+						z3 := fresh(40, ToNearestEven)
+						var zok bool
+						pv, _ = protect(func() { _, zok = z3.SetString(s) })
+						if pv != nil || fok != zok {
+							c.Fail("SetString "+key, fmt.Sprintf("panic %v; Decimal ok=%v, big.Float ok=%v", pv, zok, fok))
+						}
+						if zerr == nil && ferr == nil && !f.IsInf() {
+							ex := exactOfBigFloat(f)
+							if o := Observe(z); o.Form == fFinite && f.Acc() == big.Exact && !o.Val().Equal(ex) {
+								// (decimal fractions are not exact in binary: only compared when big.Float parsed exactly)
+								if r := RoundVal(ex, 40, ToNearestEven); !matchValue(o, r) {
+									c.Fail(key, fmt.Sprintf("Decimal parsed %s, big.Float parsed %s", o.Val(), ex))
+								}
+							}
+						}
+					}
+					if u == len(lits) {
+						for _, w := range words {
+							one(w)
+						}
+						return
+					}
+					l := lits[u]
+					for pos := 0; pos <= len(l); pos++ {
+						for b := 0; b < 256; b++ {
+							one(l[:pos] + string([]byte{byte(b)}) + l[pos:])
+							if pos < len(l) {
+								one(l[:pos] + string([]byte{byte(b)}) + l[pos+1:])
+							}
+						}
+					}
+				},
+			})
+		}
 		// C3: fmt.Scanner entry point on input containing non-ASCII runes: same verdict and value as math/big's Float
 		{
 			bases := []string{"15", "1.5", "1e5", "0x1f", "-2.25e2", "1_000", "0b101", "7"} // all exactly representable in binary
